@@ -101,6 +101,13 @@ def build_world(config: dict) -> World:
     for h in range(nhosts):
         w.add_host(mono_offset=float(mono[h]) if h < len(mono) else 0.0, wall_offset=1.7e9 + 37.0 * h)
     xml = rules_xml(config)
+    default = config.get('default_behaviour')
+    if default == 'unkillable':
+        w.default_behaviour = Behaviour(term_delay=None, kill_delay=None)
+    elif default == 'very_slow_stop':
+        w.default_behaviour = Behaviour(term_delay=30)
+    elif default == 'ignore_term':
+        w.default_behaviour = Behaviour(term_delay=None)
     for i in range(config['n']):
         inst = w.add_instance(w.hosts[config['nodes'][i]], 60001 + i, nick(i), sv_options(config, i),
                               programs_for(config, i), xml, phase=config['phases'][i] % 5)
@@ -140,6 +147,7 @@ class Runner:
         self.world.interleave = self._interleave
         self.pending_boot: Dict[int, float] = {}
         self.op_log: List[tuple] = []
+        self.drop_budget: Dict[int, int] = {}
         self.faults_applied = 0
         self.in_suffix = False
 
@@ -244,7 +252,7 @@ class Runner:
         elif kind == 'swallow':
             inst = self.inst(op[1])
             key = f'{op[2]}:{op[3]}'
-            inst.swallow[key] = inst.swallow.get(key, 0) + 1
+            inst.swallow[key] = inst.swallow.get(key, 0) + (int(op[4]) if len(op) > 4 else 1)
         elif kind == 'end_sync':
             inst = self.inst(op[1])
             master = '' if op[2] is None or op[2] < 0 else nick(op[2] % self.config['n'])
@@ -259,10 +267,26 @@ class Runner:
                 if _msg_kind(etype, body) == op[3]:
                     proxy.queue.popleft()
                     w.obs('dropped', owner.idx, dest, op[3])
+        elif kind == 'drop_next':
+            # the next k PROCESS publications served by the proxies of this instance are lost
+            idx = self.inst(op[1]).idx
+            self.drop_budget[idx] = self.drop_budget.get(idx, 0) + int(op[2])
+            if w.drop_filter is None:
+                w.drop_filter = self._drop_filter
         elif kind == 'noop':
             pass
         else:
             raise ValueError(f'unknown op {op}')
+
+    def _drop_filter(self, owner, proxy, message) -> bool:
+        from clustersim.world import _msg_kind
+        if self.in_suffix or self.drop_budget.get(owner.idx, 0) <= 0:
+            return False
+        etype, (src, body) = message
+        if _msg_kind(etype, body) == 'PROCESS' and proxy.dest_identifier != owner.identifier:
+            self.drop_budget[owner.idx] -= 1
+            return True
+        return False
 
     def _child_exit(self, inst: SimInstance, namespec: str, code: int) -> None:
         if not inst.alive:
@@ -345,6 +369,8 @@ class Runner:
             # disturbances stop: from now on children behave (wait_exit programs exit normally, others run and die
             # promptly on SIGTERM); children already running keep their fate
             inst.behaviours = {}
+        from clustersim.world import DEFAULT_BEHAVIOUR
+        w.default_behaviour = DEFAULT_BEHAVIOUR
         self._default_wait_exit()
         ticks = ticks if ticks is not None else int(self.episode.get('suffix', 0))
         w.obs('suffix_start', ticks)
@@ -422,6 +448,9 @@ class Profile:
     late_boot = 0.2
     with_rules = True
     behaviours = True
+    unkillable = False
+    default_behaviours = ('run',)
+    behaviours_max = 3
     sequences = (0, 1, 2)
     running_failure = ('CONTINUE', 'RESTART_PROCESS', 'STOP_APPLICATION', 'RESTART_APPLICATION')
     starting_failure = tuple(STARTING_FAILURE)
@@ -519,24 +548,35 @@ def config_st(draw, profile=Profile):
             apps.append({'name': f'app{a}', 'managed': managed, 'rules': app_rules, 'programs': progs})
     behaviours = {}
     if profile.behaviours and apps:
-        nb = draw(st.integers(0, 3))
+        nb = draw(st.integers(0, profile.behaviours_max))
         for _ in range(nb):
             i = draw(st.integers(0, n - 1))
             app = draw(st.sampled_from(apps))
             prog = draw(st.sampled_from(app['programs']))
-            script = draw(st.lists(behaviour_st(), min_size=1, max_size=3))
+            script = draw(st.lists(behaviour_st(profile.unkillable), min_size=1, max_size=3))
             behaviours[f'{i}|{app["name"]}:{prog["name"]}'] = script
     late = {}
     for i in range(n):
         if draw(_bern(profile.late_boot)):
             late[str(i)] = draw(st.integers(1, 40))
-    return {'n': n, 'nodes': nodes, 'phases': phases, 'mono': mono, 'options': options, 'apps': apps,
-            'behaviours': behaviours, 'late': late, 'max_delay': draw(st.integers(0, 4))}
+    out = {'n': n, 'nodes': nodes, 'phases': phases, 'mono': mono, 'options': options, 'apps': apps,
+           'behaviours': behaviours, 'late': late, 'max_delay': draw(st.integers(0, 4))}
+    default = draw(st.sampled_from(list(profile.default_behaviours)))
+    if default != 'run':
+        out['default_behaviour'] = default
+    return out
 
 
 @st.composite
-def behaviour_st(draw):
-    kind = draw(st.sampled_from(['run', 'early_exit', 'exit_ok', 'exit_bad', 'spawn_error', 'slow_stop', 'ignore_term']))
+def behaviour_st(draw, unkillable=False):
+    kinds = ['run', 'early_exit', 'exit_ok', 'exit_bad', 'spawn_error', 'slow_stop', 'ignore_term']
+    if unkillable:
+        kinds += ['unkillable', 'unkillable', 'very_slow_stop']
+    kind = draw(st.sampled_from(kinds))
+    if kind == 'unkillable':
+        return Behaviour(term_delay=None, kill_delay=None).to_json()
+    if kind == 'very_slow_stop':
+        return Behaviour(term_delay=draw(st.sampled_from([12, 30]))).to_json()
     if kind == 'run':
         return Behaviour().to_json()
     if kind == 'early_exit':
@@ -601,9 +641,11 @@ def op_st(draw, config, kinds, specs):
     if kind in ('direct_start', 'direct_stop'):
         return [kind, i, draw(st.sampled_from(specs))]
     if kind == 'swallow':
-        return [kind, i, draw(st.sampled_from(['start', 'stop'])), draw(st.sampled_from(specs))]
+        return [kind, i, draw(st.sampled_from(['start', 'stop'])), draw(st.sampled_from(specs)), draw(st.integers(1, 3))]
     if kind == 'end_sync':
         return [kind, i, draw(st.integers(-1, n - 1))]
+    if kind == 'drop_next':
+        return [kind, i, draw(st.integers(1, 4))]
     if kind == 'drop':
         return [kind, i, draw(st.integers(0, n - 1)), draw(st.sampled_from(['PROCESS', 'TICK', 'STATE']))]
     if kind == 'rpc':
